@@ -2145,7 +2145,8 @@ def check_C09(tier: str, seed: int) -> int:
 # ==========================================================================
 def check_C18(tier: str, seed: int) -> int:
     v = Verdict("C18", tier, seed, "proof")
-    ob = vplib.check_obligations("C18", expected=["C18_extrude", "C18_lookup_transparent", "C18_lookup_absent", "C18_lookup_present", "C18_indexed"])
+    ob = vplib.check_obligations("C18", expected=["C18_extrude", "C18_extrude_none_iff", "C18_extrude_interior", "C18_extrude_edges", "C18_extrude_pixels_from_input",
+                                                  "C18_lookup_transparent", "C18_lookup_absent", "C18_lookup_present", "C18_lookup_last", "C18_indexed"])
     vplib.build_harness(["release", "dev"])
     w = Work("C18")
     try:
